@@ -226,12 +226,12 @@ spec fn svs(st: Seq<StyleDecl>) -> Seq<(SView, Importance)> { st.map(|i: int, x:
 //@sub /for decl in decls/ ==> for decl in it: decls
 //@sub * /\*l == 0\.0/ ==> f32_is_zero(*l)
 //@sub /text: text\.clone\(\)/ ==> text: string_clone(text)
-//@auto C01 C18
+//@auto C01 C18 C19
 fn styles_from_properties(decls: &[parser::Declaration]) -> (styles_out: Vec<StyleDecl>)
     ensures //@w
         // exactly the mapped declarations, in order, followed by one default-importance `display: none` iff the block //@w
         // both zeroes a height and hides overflow (C18) //@w
-        svs(styles_out@) =~= expected(decls@, decls@.len() as int) //@w[ @C18 #styles_are_exactly_the_mapped_declarations
+        svs(styles_out@) =~= expected(decls@, decls@.len() as int) //@w[ @C18 @C19 #styles_are_exactly_the_mapped_declarations
             + (if any_zero_height(decls@, decls@.len() as int) && any_hidden(decls@, decls@.len() as int) { seq![(SView::DisplayNone, Importance::Default)] } else { Seq::empty() }), //@w]
 {
     let mut styles: Vec<StyleDecl> = Vec::new();
